@@ -750,7 +750,9 @@ class SemanticErrorChecker:
             if not self.check_statement(statement, task):
                 valid = False
 
-        if not self.check_expression(while_loop.expression, while_loop.context, task):
+        if not self.check_if_expression_is_no_string(
+            while_loop.expression, while_loop.context
+        ) or not self.check_expression(while_loop.expression, while_loop.context, task):
             valid = False
         return valid
 
@@ -810,9 +812,23 @@ class SemanticErrorChecker:
             if not self.check_statement(statement, task):
                 valid = False
 
-        if not self.check_expression(condition.expression, condition.context, task):
+        if not self.check_if_expression_is_no_string(
+            condition.expression, condition.context
+        ) or not self.check_expression(condition.expression, condition.context, task):
             valid = False
         return valid
+
+    def check_if_expression_is_no_string(self, expression, context: ParserRuleContext) -> bool:
+        """Checks that the whole expression of a Condition or While Loop is not a string literal.
+
+        Returns:
+            True if the expression is not a string literal.
+        """
+        if isinstance(expression, str):
+            error_msg = "A string can not be used as boolean expression"
+            self.error_handler.print_error(error_msg, context=context)
+            return False
+        return True
 
     def check_expression(
         self, expression: Union[str, dict], context: ParserRuleContext, task: Task
